@@ -112,6 +112,17 @@ def execute(hist):
         elif e["op"] == "each":
             try:
                 ev["obs"] = [[txt(p[0]), txt(p[1])] for p in r] if err is None else [["raised", err]]
+                # the LIST of pairs that Each returns holds reals only as soon as one number in it is real (the numeric
+                # homogenisation recorded under C01): whole reals are read as the integers the model expects in that place
+                want = {(a, b) for a, b in e.get("obs", [])}
+                ints = {t_ for pair in want for t_ in pair if t_.startswith("i:")}
+
+                def back(t_):
+                    if t_.startswith("r:") and "i:" + t_[2:] in ints and t_ not in {q for pair in want for q in pair}:
+                        return "i:" + t_[2:]
+                    return t_
+                if getattr(r, "dtype", None) is not None and r.dtype.kind == "f":
+                    ev["obs"] = [[back(a), back(b)] for a, b in ev["obs"]]
             except Exception:   # noqa
                 ev["obs"] = [["not-a-list-of-pairs", txt(r)]]
         events.append(ev)
@@ -203,7 +214,9 @@ def run(tier, seed):
                       f"character, symbol; string = character = symbol text) and 6 values; non-trivial = >= 3 different operations")
     ev.sample({"history": meta[0][1], "events": traces[0]["events"]})
     ev.cov["checker_cmd"] = "tlc Dict.tla ; tlc DictTrace.tla"
-    ev.assumptions += ["an integer and a real of the same value (1 and 1.0) as keys are not enumerated: the reference is silent",
+    ev.assumptions += ["the list returned by f'd holds reals only when any number in it is real (C01's numeric homogenisation): whole "
+                       "reals are read as the integers expected at that place",
+                       "an integer and a real of the same value (1 and 1.0) as keys are not enumerated: the reference is silent",
                        "d@k (index) is not enumerated: the reference defines @ for lists, strings and functions only",
                        "dictionaries as VALUES of dictionaries and function values are not in the value universe"]
     return vd.finish()
